@@ -35,6 +35,18 @@ def obsOf (sha1 : Bytes → Bytes) : HOut → Option Obs
 def diskOf (d : Option (Bytes × Bytes)) : Bytes → Option Bytes :=
   fun h => match d with | some (h', c) => if h = h' then some c else none | none => none
 
+/-- What `k` consecutive timer ticks produce when `silent` ticks have already passed since the last real
+    message: a `KeepAlive` per tick, until the limit is reached — that tick closes the connection instead.
+    Returns (number of keep-alives written, new silent count, still alive). -/
+def kaRun (limit : Nat) : Nat → Nat → Nat × Nat × Bool
+  | silent, 0 => (0, silent, true)
+  | silent, k + 1 =>
+    if silent = limit then (0, silent, false)
+    else
+      let r := kaRun limit (silent + 1) k
+      (r.1 + 1, r.2.1, r.2.2)
+
+/-- `k` ticks of the keep-alive timer, step by step through `hstep` (`timeout_keep_alive`). -/
 def tickN (sha1 : Bytes → Bytes) : Nat → HState → List HOut → Option HRes
   | 0, s, acc => some (s, acc, none)
   | k + 1, s, acc =>
@@ -42,6 +54,12 @@ def tickN (sha1 : Bytes → Bytes) : Nat → HState → List HOut → Option HRe
     | some (s', o, none) => tickN sha1 k s' (acc ++ o)
     | some (s', o, some e) => some (s', acc ++ o, some e)     -- the task has ended: later ticks do not exist for it
     | none => none
+
+/-- The same in closed form (proved equal to `tickN` in Props/C20: `tickN_closed`). -/
+def ticksClosed (s : HState) (k : Nat) : HRes :=
+  if !s.alive then (s, [], none) else
+  let r := kaRun KEEP_ALIVE_LIMIT s.keepAlive k
+  ({ s with keepAlive := r.2.1, alive := r.2.2 }, List.replicate r.1 (.write .keepAlive), if r.2.2 then none else some false)
 
 /-- One script input on the model. `none`: the scripted reply does not fit the command (not a behaviour). -/
 def tstep (sha1 : Bytes → Bytes) (s : HState) : TIn → Option HRes
@@ -51,7 +69,7 @@ def tstep (sha1 : Bytes → Bytes) (s : HState) : TIn → Option HRes
   | .eof => hstep sha1 (fun _ => none) s .eof
   | .bcHave i rep => hstep sha1 (fun _ => none) s (.bcHave i rep)
   | .bcState e => hstep sha1 (fun _ => none) s (.bcState e)
-  | .ticks k => tickN sha1 k s []
+  | .ticks k => some (ticksClosed s k)
 
 /-- Per input: the observations, and `some normal` if the task ended with this input. -/
 abbrev Trace := List (TIn × List Obs × Option Bool)
